@@ -47,7 +47,9 @@ Proof. vm_compute. reflexivity. Qed.
 
 (* control stream: read_timeout=self.idle_timeout, write_timeout=self.socket_timeout; data streams
    (PASV and EPSV): timeout=connection.socket_timeout = self.socket_timeout; StreamIO.__init__'s
-   `X or timeout`; readline/read under read_timeout, write under write_timeout; the wait of
+   `timeout if X is None else X` (fact semantics "is-none": ONLY None falls back, 0 is kept -- a source
+   that goes back to `X or timeout` is translated with semantics "or" to the wiring [or_wiring], which is
+   not [std_wiring], and these two lemmas fail); readline/read under read_timeout, write under write_timeout; the wait of
    ConnectionConditions(wait=True) uses connection.wait_future_timeout = self.wait_future_timeout and its
    TimeoutError handler replies fail_code and returns True *)
 Lemma C16_wiring_pasv : gen_wiring "pasv.handler" = Some std_wiring.
@@ -110,11 +112,13 @@ Lemma C16_parse_command_respawned :
   = true.
 Proof. vm_compute. reflexivity. Qed.
 
-(* a TimeoutError of any task reaches the dispatcher: neither @worker nor the inner try handles it,
-   the outer `except Exception` only logs, and the finally block closes the control stream *)
+(* a TimeoutError of any task reaches the dispatcher: neither @worker nor the inner try handles it
+   (their clauses name only errors.PathIOError / asyncio.CancelledError, neither of which is a
+   superclass of TimeoutError), the outer `except Exception` only logs, and the finally block closes
+   the control stream *)
 Lemma C16_timeout_ends_session :
   slist_eqb (map fst worker_except) ["asyncio.CancelledError"]
-  && slist_eqb (map fst (d_task_except dispatcher)) ["errors.PathIOError"]
+  && forallb (fun p => mem_s (fst p) ["errors.PathIOError"; "asyncio.CancelledError"]) (d_task_except dispatcher)
   && match assoc_s "Exception" (d_outer_except dispatcher) with Some a => slist_eqb a ["log"] | None => false end
   && mem_s "loop_open=>close:control" (d_finally dispatcher)
   && mem_s "loop_open=>cancel:pending|connection.extra_workers" (d_finally dispatcher)
@@ -135,9 +139,23 @@ Proof. vm_compute. reflexivity. Qed.
 Close Scope string_scope.
 
 (* ================================================================ B. theorems about the timed model *)
-(* All statements hold for every configuration (each timeout None or any rational), every reachable
-   or unreachable live state [s] (hence wherever in the session the stall begins) and every
-   continuation.  [finish] = the peer stalls for good; [step] = the next thing the peer does. *)
+(* All statements hold for every configuration (each timeout None or ANY rational: positive, zero,
+   negative), every reachable or unreachable live state [s] (hence wherever in the session the stall
+   begins) and every continuation.  [finish] = the peer stalls for good; [step] = the next thing the
+   peer does; [run] = a whole session from its greeting.
+   [due a T] is the instant at which an await entered at [a] under the timeout T is given up. *)
+Theorem C16_due_spec : forall a T,
+  (0 < T -> due a T = a + T) /\ (T <= 0 -> due a T = a) /\ a <= due a T /\ (0 <= T -> due a T <= a + T).
+Proof. exact due_spec. Qed.
+Print Assumptions C16_due_spec.
+
+(* B0. every await is governed by exactly the configured value: None stays None, 0 stays 0 *)
+Theorem C16_effective_timeouts : forall c,
+  eval c (w_ctrl_read std_wiring) = idle c /\ eval c (w_ctrl_write std_wiring) = socket c /\
+  eval c (w_data_read std_wiring) = socket c /\ eval c (w_data_write std_wiring) = socket c /\
+  eval c (w_wait std_wiring) = wait_future c.
+Proof. exact effective_timeouts. Qed.
+Print Assumptions C16_effective_timeouts.
 
 (* B1. no early release: an event strictly before every session-ending deadline (idle read,
    pending data I/O, blocked control write) is handled by a live session *)
@@ -148,26 +166,34 @@ Proof. intros c s e Ha Hd. exact (proj1 (never_before_bound std_wiring c s e eq_
 Print Assumptions C16_never_before_bound.
 
 (* B2. idle: the control readline armed at [armed s] (= consumption of the last command line + its
-   read-throttle wait) drops the session at exactly armed s + idle_timeout when the peer stalls *)
-Theorem C16_idle_drop_exact : forall c s i, alive s -> idle c = Some i -> 0 < i ->
-  (forall y ky, data_dl std_wiring c s = Some (y, ky) -> armed s + i <= y) ->
-  (forall y ky, cw_dl std_wiring c s = Some (y, ky) -> armed s + i <= y) ->
-  ended (finish std_wiring c s) = Some (armed s + i, CIdle).
+   read-throttle wait) drops the session at exactly due (armed s) idle_timeout when the peer stalls *)
+Theorem C16_idle_drop_exact : forall c s i, alive s -> idle c = Some i ->
+  (forall y ky, data_dl std_wiring c s = Some (y, ky) -> due (armed s) i <= y) ->
+  (forall y ky, cw_dl std_wiring c s = Some (y, ky) -> due (armed s) i <= y) ->
+  ended (finish std_wiring c s) = Some (due (armed s) i, CIdle).
 Proof. exact idle_drop_exact. Qed.
 Print Assumptions C16_idle_drop_exact.
 
-Theorem C16_idle_drop_exact_event : forall c s i e, alive s -> idle c = Some i -> 0 < i ->
-  (forall y ky, data_dl std_wiring c s = Some (y, ky) -> armed s + i <= y) ->
-  (forall y ky, cw_dl std_wiring c s = Some (y, ky) -> armed s + i <= y) ->
-  armed s + i <= time_of e ->
-  ended (step std_wiring c s e) = Some (armed s + i, CIdle).
+Theorem C16_idle_drop_exact_event : forall c s i e, alive s -> idle c = Some i ->
+  (forall y ky, data_dl std_wiring c s = Some (y, ky) -> due (armed s) i <= y) ->
+  (forall y ky, cw_dl std_wiring c s = Some (y, ky) -> due (armed s) i <= y) ->
+  due (armed s) i <= time_of e ->
+  ended (step std_wiring c s e) = Some (due (armed s) i, CIdle).
 Proof. exact idle_drop_exact_event. Qed.
 Print Assumptions C16_idle_drop_exact_event.
 
-Theorem C16_idle_release_bound : forall c s i, alive s -> idle c = Some i -> 0 < i ->
+(* the statement of the property at full strength: every value 0 <= i, the value 0 included
+   (before the F16 repair this held for 0 < i only and was refuted at i = 0) *)
+Theorem C16_idle_release_bound : forall c s i, alive s -> idle c = Some i -> 0 <= i ->
   exists d k, ended (finish std_wiring c s) = Some (d, k) /\ d <= armed s + i.
 Proof. exact idle_release_bound. Qed.
 Print Assumptions C16_idle_release_bound.
+
+(* ... and for any value at all *)
+Theorem C16_idle_release_due : forall c s i, alive s -> idle c = Some i ->
+  exists d k, ended (finish std_wiring c s) = Some (d, k) /\ d <= due (armed s) i.
+Proof. exact idle_release_due. Qed.
+Print Assumptions C16_idle_release_due.
 
 (* ... and never if the next line arrives before: it is handled and re-arms the timer at t + d *)
 Theorem C16_next_line_rearms : forall c s t d k, alive s ->
@@ -178,18 +204,18 @@ Print Assumptions C16_next_line_rearms.
 
 (* a session every event of which comes within idle_timeout of the arming of its latest command is
    never dropped for idleness, whatever else ends it *)
-Theorem C16_active_never_idle_dropped : forall c i evs s, idle c = Some i -> 0 < i -> alive s ->
+Theorem C16_active_never_idle_dropped : forall c i evs s, idle c = Some i -> alive s ->
   within_idle i (armed s) evs ->
   forall d k, ended (run_events std_wiring c s evs) = Some (d, k) -> k <> CIdle.
 Proof. exact active_never_idle_dropped. Qed.
 Print Assumptions C16_active_never_idle_dropped.
 
 (* the idle timer is not reset by data-channel progress: a session whose only activity is a
-   transfer is gone by armed s + idle_timeout, and exactly then when idleness is the cause *)
-Theorem C16_idle_drop_during_transfer : forall c i evs s, idle c = Some i -> 0 < i -> alive s ->
+   transfer is gone by the idle deadline, and exactly then when idleness is the cause *)
+Theorem C16_idle_drop_during_transfer : forall c i evs s, idle c = Some i -> alive s ->
   forallb (fun e => negb (is_line e)) evs = true ->
   exists d k, ended (finish std_wiring c (run_events std_wiring c s evs)) = Some (d, k) /\
-              d <= armed s + i /\ (k = CIdle -> d = armed s + i).
+              d <= due (armed s) i /\ (k = CIdle -> d = due (armed s) i).
 Proof. exact idle_drop_during_transfer. Qed.
 Print Assumptions C16_idle_drop_during_transfer.
 
@@ -198,7 +224,7 @@ Print Assumptions C16_idle_drop_during_transfer.
    state with no transfer pending *)
 Theorem C16_data_wait_425 : forall c s dr cmd x e, alive s ->
   xf s = XWait dr cmd -> wait_future c = Some x ->
-  let wd := if qlt 0 x then cmd + x else cmd in
+  let wd := due cmd x in
   (forall d k, end_dl std_wiring c s = Some (d, k) -> wd < d /\ time_of e < d) ->
   wd <= time_of e ->
   step std_wiring c s e = apply_event (reply_425 s wd) e /\
@@ -209,7 +235,7 @@ Print Assumptions C16_data_wait_425.
 
 Theorem C16_data_wait_425_stall : forall c s dr cmd x, alive s ->
   xf s = XWait dr cmd -> wait_future c = Some x ->
-  let wd := if qlt 0 x then cmd + x else cmd in
+  let wd := due cmd x in
   (forall d k, end_dl std_wiring c s = Some (d, k) -> wd < d) ->
   r425 (finish std_wiring c s) = wd :: r425 s /\ xf (finish std_wiring c s) = XNone /\
   ended (finish std_wiring c s) = end_dl std_wiring c s.
@@ -217,7 +243,7 @@ Proof. exact data_wait_425_stall. Qed.
 Print Assumptions C16_data_wait_425_stall.
 
 Theorem C16_data_connect_in_time : forall c s dr cmd x t, alive s ->
-  xf s = XWait dr cmd -> wait_future c = Some x -> t < (if qlt 0 x then cmd + x else cmd) ->
+  xf s = XWait dr cmd -> wait_future c = Some x -> t < due cmd x ->
   (forall d k, end_dl std_wiring c s = Some (d, k) -> t < d) ->
   step std_wiring c s (DataConnects t) = set_xf s (XMove dr t).
 Proof. exact data_connect_in_time. Qed.
@@ -230,19 +256,19 @@ Proof. intros evs c s. exact (at_most_one_425_per_transfer std_wiring c evs s). 
 Print Assumptions C16_at_most_one_425_per_transfer.
 
 (* B4. data stall: the pending read/write of a data stream that made its last progress at p is
-   abandoned at exactly p + socket_timeout -- and, as the code is written (the TimeoutError leaves
+   abandoned at exactly due p socket_timeout -- and, as the code is written (the TimeoutError leaves
    the worker and reaches the dispatcher), that ends the SESSION, with no reply *)
 Theorem C16_data_stall_bound : forall c s dr p x, alive s ->
-  xf s = XMove dr p -> socket c = Some x -> 0 < x ->
-  (forall y ky, idle_dl std_wiring c s = Some (y, ky) -> p + x < y) ->
-  (forall y ky, cw_dl std_wiring c s = Some (y, ky) -> p + x <= y) ->
-  ended (finish std_wiring c s) = Some (p + x, CData).
+  xf s = XMove dr p -> socket c = Some x ->
+  (forall y ky, idle_dl std_wiring c s = Some (y, ky) -> due p x < y) ->
+  (forall y ky, cw_dl std_wiring c s = Some (y, ky) -> due p x <= y) ->
+  ended (finish std_wiring c s) = Some (due p x, CData).
 Proof. exact data_stall_bound. Qed.
 Print Assumptions C16_data_stall_bound.
 
 Theorem C16_data_stall_release_bound : forall c s dr p x, alive s ->
-  xf s = XMove dr p -> socket c = Some x -> 0 < x ->
-  exists d k, ended (finish std_wiring c s) = Some (d, k) /\ d <= p + x.
+  xf s = XMove dr p -> socket c = Some x ->
+  exists d k, ended (finish std_wiring c s) = Some (d, k) /\ d <= due p x.
 Proof. exact data_stall_release_bound. Qed.
 Print Assumptions C16_data_stall_release_bound.
 
@@ -253,8 +279,8 @@ Proof. exact data_progress_rearms. Qed.
 Print Assumptions C16_data_progress_rearms.
 
 Theorem C16_ctrl_write_stall_bound : forall c s t x, alive s ->
-  cw s = Some t -> socket c = Some x -> 0 < x ->
-  exists d k, ended (finish std_wiring c s) = Some (d, k) /\ d <= t + x.
+  cw s = Some t -> socket c = Some x ->
+  exists d k, ended (finish std_wiring c s) = Some (d, k) /\ d <= due t x.
 Proof. exact ctrl_write_stall_bound. Qed.
 Print Assumptions C16_ctrl_write_stall_bound.
 
@@ -271,8 +297,8 @@ Theorem C16_dropped_at_deadline : forall c s e d k, alive s ->
 Proof. intros c s e d k. exact (dropped_at_deadline std_wiring c s e d k eq_refl). Qed.
 Print Assumptions C16_dropped_at_deadline.
 
-(* B6. unset means unbounded (non-vacuity the other way) *)
-Theorem C16_unset_idle_never_dropped : forall c s, alive s -> truthy (idle c) = false ->
+(* B6. unset (None, and only None) means unbounded (non-vacuity the other way) *)
+Theorem C16_unset_idle_never_dropped : forall c s, alive s -> idle c = None ->
   (forall d p, xf s <> XMove d p) -> cw s = None -> alive (finish std_wiring c s).
 Proof. exact unset_idle_never_dropped. Qed.
 Print Assumptions C16_unset_idle_never_dropped.
@@ -284,56 +310,66 @@ Proof. exact unset_wait_never_425. Qed.
 Print Assumptions C16_unset_wait_never_425.
 
 Theorem C16_unset_socket_never_abandoned : forall c s, alive s -> socket c = None ->
-  truthy (idle c) = false -> alive (finish std_wiring c s).
+  idle c = None -> alive (finish std_wiring c s).
 Proof. exact unset_socket_never_abandoned. Qed.
 Print Assumptions C16_unset_socket_never_abandoned.
 
-(* B7. the value 0.  idle_timeout = 0 is indistinguishable from None on every script ... *)
-Theorem C16_zero_is_unset_idle : forall c z t0 evs, idle c = Some z -> z == 0 ->
-  run std_wiring c t0 evs = run std_wiring (set_idle c None) t0 evs.
-Proof. exact zero_is_unset_idle. Qed.
-Print Assumptions C16_zero_is_unset_idle.
+(* B7. the value 0 is zero seconds, everywhere (F16 repaired; these replace the former
+   C16_zero_is_unset_idle, C16_zero_is_unset_socket_ctrl and the refutation C16_idle_zero_dropped_refuted).
+   Control reads: idle_timeout <= 0 drops the session at its very start, whatever the peer does ... *)
+Theorem C16_idle_zero_drops_at_once : forall c z t0 evs, idle c = Some z -> z <= 0 ->
+  ended (run std_wiring c t0 evs) = Some (t0, CIdle).
+Proof. exact idle_zero_drops_at_once. Qed.
+Print Assumptions C16_idle_zero_drops_at_once.
 
-(* ... socket_timeout = 0 means NO timeout for control-channel writes ... *)
-Theorem C16_zero_is_unset_socket_ctrl : forall c z, socket c = Some z -> z == 0 ->
-  eval c (w_ctrl_write std_wiring) = None.
-Proof. exact zero_is_unset_socket_ctrl. Qed.
-Print Assumptions C16_zero_is_unset_socket_ctrl.
+(* ... and from any live state a silent session is gone by the instant its read was armed *)
+Theorem C16_idle_zero_release : forall c s z, alive s -> idle c = Some z -> z <= 0 ->
+  exists d k, ended (finish std_wiring c s) = Some (d, k) /\ d <= armed s.
+Proof. exact idle_zero_release. Qed.
+Print Assumptions C16_idle_zero_release.
 
-(* ... but an IMMEDIATE timeout for every data-stream read/write (`None or 0` is 0) ... *)
+(* Control writes: socket_timeout <= 0 gives up the greeting (the first reply write) at once: the
+   session is over at its start ... *)
+Theorem C16_zero_socket_ends_at_greeting : forall c z t0 evs, socket c = Some z -> z <= 0 ->
+  exists d k, ended (run std_wiring c t0 evs) = Some (d, k) /\ d == t0.
+Proof. exact zero_socket_ends_at_greeting. Qed.
+Print Assumptions C16_zero_socket_ends_at_greeting.
+
+(* ... and from any live state a pending reply write ends the session by the instant it was entered *)
+Theorem C16_zero_socket_ctrl_immediate : forall c s t z, alive s ->
+  cw s = Some t -> socket c = Some z -> z <= 0 ->
+  exists d k, ended (finish std_wiring c s) = Some (d, k) /\ d <= t.
+Proof. exact zero_socket_ctrl_immediate. Qed.
+Print Assumptions C16_zero_socket_ctrl_immediate.
+
+(* Data reads/writes: given up the instant they start (state level: under the wiring of the source
+   such a state is not reachable from [run], the session having ended at the greeting) *)
 Theorem C16_zero_socket_data_immediate : forall c s dr p z, alive s ->
-  xf s = XMove dr p -> socket c = Some z -> z == 0 ->
+  xf s = XMove dr p -> socket c = Some z -> z <= 0 ->
   (forall y ky, idle_dl std_wiring c s = Some (y, ky) -> p < y) ->
+  (forall y ky, cw_dl std_wiring c s = Some (y, ky) -> p <= y) ->
   ended (finish std_wiring c s) = Some (p, CData).
 Proof. exact zero_socket_data_immediate. Qed.
 Print Assumptions C16_zero_socket_data_immediate.
 
-(* ... and wait_future_timeout = 0 an immediate 425 *)
+(* Data-connection wait: wait_future_timeout <= 0 is an immediate 425 *)
 Theorem C16_zero_wait_immediate_425 : forall c s dr cmd z, alive s ->
-  xf s = XWait dr cmd -> wait_future c = Some z -> z == 0 ->
+  xf s = XWait dr cmd -> wait_future c = Some z -> z <= 0 ->
   (forall d k, end_dl std_wiring c s = Some (d, k) -> cmd < d) ->
   r425 (finish std_wiring c s) = cmd :: r425 s.
 Proof. exact zero_wait_immediate_425. Qed.
 Print Assumptions C16_zero_wait_immediate_425.
 
-(* FINDING (known_findings.json F15): read literally ("for all timeout settings, each None or a
-   value"), the statement "a session silent on the control channel is dropped once idle_timeout has
-   passed" fails for the value 0: the faithful model never releases a silent session configured with
-   idle_timeout = 0 (while 0 does mean "zero seconds" for data streams and for the data-connection
-   wait, theorems above).  Full statement, NOT provable:
-     forall c s i, alive s -> idle c = Some i -> 0 <= i -> exists d k, ended (finish .. c s) = Some (d, k)
-                                                                        /\ d <= armed s + i
-   proved with 0 < i as C16_idle_release_bound (the carved part); refuted at i = 0: *)
-Definition cfg_zero_idle : config := {| idle := Some 0; socket := None; wait_future := Some 1 |}.
-
-Theorem C16_idle_zero_dropped_refuted :
-  exists c evs, idle c = Some 0 /\ ended (run std_wiring c 0 evs) = None.
-Proof. exists cfg_zero_idle, [Line 1 0 KPlain]. split; vm_compute; reflexivity. Qed.
-Print Assumptions C16_idle_zero_dropped_refuted.
+(* B8. the shape before the repair (`X or timeout`) is a different wiring: it turns idle_timeout = 0
+   into "no timeout", which is how obligation C16_wiring_* tells a revert of the fix apart *)
+Theorem C16_or_shape_differs_at_zero : forall c z, idle c = Some z -> z == 0 ->
+  eval c (w_ctrl_read or_wiring) = None /\ eval c (w_ctrl_read std_wiring) = Some z.
+Proof. exact or_wiring_zero_is_unset. Qed.
+Print Assumptions C16_or_shape_differs_at_zero.
 
 (* ================================================================ C. non-vacuity *)
 Definition cfg1 : config := {| idle := Some 5; socket := Some 3; wait_future := Some 2 |}.
-Definition s_of (c : config) (evs : list event) : state := run_events std_wiring c (init 0) evs.
+Definition s_of (c : config) (evs : list event) : state := run_events std_wiring c (start std_wiring c 0) evs.
 
 (* hypotheses of C16_idle_drop_exact are satisfiable: logged-in session, last line at 2 -> dropped at 7 *)
 Example ex_idle : let s := s_of cfg1 [Line 1 0 KPlain; Line 2 0 KPlain] in
@@ -370,10 +406,36 @@ Example ex_unset : let c := {| idle := None; socket := None; wait_future := None
   ended s = None /\ xf s = XWait Up 1 /\ r425 s = [].
 Proof. vm_compute. repeat split. Qed.
 
-(* socket_timeout = 0 differs from None on a data stream (so "0 is unset" is FALSE there) *)
+(* idle_timeout = 0: the former counterexample (one command at 1, then silence) is now dropped at 0;
+   idle_timeout = None on the same script is never dropped (0 is NOT unset) *)
+Definition cfg_zero_idle : config := {| idle := Some 0; socket := None; wait_future := Some 1 |}.
+Example ex_zero_idle :
+  ended (run std_wiring cfg_zero_idle 0 [Line 1 0 KPlain]) = Some (0, CIdle) /\
+  ended (run std_wiring {| idle := None; socket := None; wait_future := Some 1 |} 0 [Line 1 0 KPlain]) = None /\
+  ended (run or_wiring cfg_zero_idle 0 [Line 1 0 KPlain]) = None.
+Proof. vm_compute. repeat split. Qed.
+
+(* socket_timeout = 0: over at the greeting; = None: a started upload with a silent peer is never given up *)
 Example ex_zero_socket_not_unset :
   ended (run std_wiring {| idle := None; socket := Some 0; wait_future := None |} 0
-             [DataConnects 1; Line 2 0 (KXfer Up)]) = Some (2, CData) /\
+             [DataConnects 1; Line 2 0 (KXfer Up)]) = Some (0, CCtrlWrite) /\
   ended (run std_wiring {| idle := None; socket := None; wait_future := None |} 0
              [DataConnects 1; Line 2 0 (KXfer Up)]) = None.
 Proof. vm_compute. split; reflexivity. Qed.
+
+(* hypotheses of C16_zero_socket_data_immediate / C16_zero_socket_ctrl_immediate are satisfiable (live
+   states with a pending data read / a pending reply write) *)
+Example ex_zero_socket_states :
+  let c := {| idle := Some 5; socket := Some 0; wait_future := None |} in
+  let s := {| armed := 2; xf := XMove Up 3; data_ready := false; cw := None; r425 := []; ended := None |} in
+  let s' := {| armed := 2; xf := XNone; data_ready := false; cw := Some 4; r425 := []; ended := None |} in
+  alive s /\ ended (finish std_wiring c s) = Some (3, CData) /\
+  alive s' /\ ended (finish std_wiring c s') = Some (4, CCtrlWrite).
+Proof. vm_compute. repeat split. Qed.
+
+(* wait_future_timeout = 0: 425 at the command instant, the session continues *)
+Example ex_zero_wait :
+  let c := {| idle := Some 5; socket := None; wait_future := Some 0 |} in
+  let s := run std_wiring c 0 [Line 1 0 KPlain; Line 2 0 (KXfer Down)] in
+  r425 s = [2] /\ ended s = Some (2 + 5, CIdle).
+Proof. vm_compute. repeat split. Qed.
